@@ -265,6 +265,65 @@ func c15APIUse(r *Run) {
 		r.Eval(fmt.Sprintf("apiuse/asyncchain/%d", i), true)
 		r.Count("apiuse.asyncchain")
 	}
+	// a metadata value shared by all handlers of a service ("common headers", only ever read by them):
+	// concurrent unary and stream handlers pass it to SetHeader / SetTrailer and then set the same key
+	// again with a value of their own. The library never writes into what it was handed.
+	for i, n := 0, r.Scale(6, 40); i < n; i++ {
+		r.Progress("apiuse.sharedmd", i)
+		common := metadata.Pairs("via", "a", "via", "b", "via", "c") // three values in a slice with room for a fourth
+		rig := NewRig(RigOpt{Serialise: i%2 == 0})
+		rig.Impl.SetUnary(func(ctx context.Context, req []byte) ([]byte, error) {
+			grpc.SetHeader(ctx, common)
+			grpc.SetHeader(ctx, metadata.Pairs("via", string(req)))
+			grpc.SetTrailer(ctx, common)
+			grpc.SetTrailer(ctx, metadata.Pairs("via", string(req)))
+			if vs := common["via"]; len(vs) != 3 || vs[0] != "a" || vs[2] != "c" || (cap(vs) > 3 && vs[:4][3] != "") {
+				return nil, status.Error(codes.DataLoss, "shared metadata changed")
+			}
+			return req, nil
+		})
+		rig.Impl.SetStream(func(method string, ss grpc.ServerStream) error {
+			b, _ := recvB(ss)
+			ss.SetHeader(common)
+			ss.SetHeader(metadata.Pairs("via", string(b)))
+			ss.SetTrailer(common)
+			ss.SetTrailer(metadata.Pairs("via", string(b)))
+			sendB(ss, b)
+			return nil
+		})
+		var wg sync.WaitGroup
+		var changed atomic.Int32
+		for k := 0; k < 6; k++ {
+			wg.Add(1)
+			go func(k int) {
+				defer wg.Done()
+				for j := 0; j < 8; j++ {
+					ctx, cancel := context.WithTimeout(context.Background(), hangTimeout)
+					if (k+j)%3 == 0 {
+						if cs, err := rig.CC.NewStream(ctx, descBidi, mBidi); err == nil {
+							sendB(cs, []byte(fmt.Sprintf("call-%d-%d", k, j)))
+							cs.CloseSend()
+							for {
+								if _, err := recvB(cs); err != nil {
+									break
+								}
+							}
+						}
+					} else if _, err := callUnary(ctx, rig.CC, []byte(fmt.Sprintf("call-%d-%d", k, j))); status.Code(err) == codes.DataLoss {
+						changed.Add(1)
+					}
+					cancel()
+				}
+			}(k)
+		}
+		wg.Wait()
+		if vs := common["via"]; changed.Load() > 0 || len(vs) != 3 || (cap(vs) > 3 && vs[:4][3] != "") {
+			r.Violate("apiuse.sharedmd", "history", "memory of a metadata value that handlers passed to SetHeader / SetTrailer was written by the library", i, fmt.Sprint(common["via"][:cap(common["via"])]), "[a b c ]")
+		}
+		rig.Close()
+		r.Eval(fmt.Sprintf("apiuse/sharedmd/%d", i), true)
+		r.Count("apiuse.sharedmd")
+	}
 	// the HTTP transport under a client connection: several calls are writing when the peer dies (all
 	// their POSTs are cut off together), so several Writes of one connection fail concurrently while its
 	// reader is woken
